@@ -127,3 +127,18 @@ func TestVerifReproC03TimeoutStream(t *testing.T) {
 		t.Fatalf("client got %s", resp)
 	}
 }
+
+// mux ignores the read error of a streamed response body: a backend that drops the connection in
+// the middle of a chunked body yields a cleanly terminated, silently truncated 200.
+func TestVerifReproC03StreamCutBody(t *testing.T) {
+	rig := vfReproRig(t, &vfxCfg{Compression: -1, ProxyServerMax: -1})
+	body := vfxBody(9, 70*1024, 0)
+	rig.setScript(&vfxScript{Status: 200, Framing: "cut", Body: body, CutAt: 1000})
+	resp, err := rig.do(&vfxRequest{Method: "GET", Target: "/", Host: "repro.test", Framing: "none", Headers: [][2]string{{"Accept-Encoding", "identity"}}})
+	if err != nil {
+		t.Fatal(err)
+	}
+	if resp.Status == 200 && resp.FramingErr == "" && !bytes.Equal(resp.Body, body) {
+		t.Fatalf("backend sent 1000 of %d bytes and dropped the connection; client got a well-framed complete-looking response: %s", len(body), resp)
+	}
+}
